@@ -479,6 +479,16 @@ impl ReqPlan {
                 rb = if *append { rb.header_append(name, hv) } else { rb.header(name, hv) };
                 continue;
             }
+            // (no draw) ... and some go straight into the builder's header map
+            if v.len() % 4 == 3 {
+                let hv = attohttpc::header::HeaderValue::from_bytes(v).expect("generated header value");
+                if *append {
+                    rb.headers_mut().append(name, hv);
+                } else {
+                    rb.headers_mut().insert(name, hv);
+                }
+                continue;
+            }
             rb = match (*append, alt) {
                 (true, false) => rb.header_append(name, &v[..]),
                 (false, false) => rb.header(name, &v[..]),
@@ -490,6 +500,13 @@ impl ReqPlan {
             Auth::None => {}
             Auth::Basic(u, p) => rb = rb.basic_auth(u, p.as_ref()),
             Auth::Bearer(t) => rb = rb.bearer_auth(t.clone()),
+        }
+        // looking at a request does not change it
+        crate::bodyx::render_debug(&rb);
+        {
+            let insp = rb.inspect();
+            let _ = (insp.url().as_str().len(), insp.headers().len());
+            assert_eq!(insp.method().as_str(), self.method, "RequestInspector::method() disagrees with the method the request was created with");
         }
         rb
     }
